@@ -296,6 +296,10 @@ def site_fchk_mo(ctx, rid):
         )
 
 
+class _Conditional(Exception):
+    pass
+
+
 def site_writer_conventions(ctx, rid):
     """Rows written = signs[r] * coefficients[permutation[r]] for every wavefunction writer (evaluated on symbols)."""
     prog = ctx.prog
@@ -357,13 +361,30 @@ def site_writer_conventions(ctx, rid):
                                     nxt = (e2, h2)
                         if nxt is None:
                             break
+                        # the follow-up must run on every path that leaves the first statement normally: a conversion
+                        # applied under a condition ("only for f shells") leaves the other paths unconverted
+                        from ..cfg import EXIT, cfg_of
+
+                        cfg_ = cfg_of(f)
+                        pm_ = prog.parents(f)
+
+                        def _stmt(nd_):
+                            while not isinstance(nd_, ast.stmt):
+                                nd_ = pm_[id(nd_)]
+                            return nd_
+
+                        if not cfg_.must_pass([EXIT], [cfg_.idx(_stmt(nxt[1]))], start=cfg_.idx(_stmt(hold))):
+                            raise _Conditional(src_of(nxt[0]))
                         env[t] = got
                         got = _SplitEval(env, prog, f).eval(nxt[0])
                         cur, hold = nxt
                     want = np.array([[sg[r] * src[perm[r], j] for j in range(src.shape[1])] for r in range(3)], dtype=object)
                     return got, want, "row r of the written block = signs[r] x source row permutation[r] (index with the permutation first, then scale)"
 
-                _run(ctx, rid, f, e, f"{short} writer, {attr}", thunk)
+                try:
+                    _run(ctx, rid, f, e, f"{short} writer, {attr}", thunk)
+                except _Conditional as exc:
+                    ctx.violate(rid, f"{short} writer, {attr}: the conversion `{exc.args[0][:80]}` is applied on some paths only; on the others `{src_of(e)[:60]}` is written in the object's own conventions", f, e, construct=f"{short} writer, {attr}: conversion applied conditionally")
     # the permutation used as a store index scatters (inverse permutation)
     for short in ("fchk", "molden", "molekel", "wfn", "wfx"):
         do = prog.format_op(short, "dump_one")
